@@ -142,7 +142,7 @@ var settingKeys = []string{
 var vocab = []string{
 	"ID", "Name", "Nested", "Ptr", "List", "Dict", "Color", "Age", "Extra", "secret", "Next", "A", "B", "Full",
 	"Nested.A", "Ptr.A", "Next.Next.ID", "Next.Nested.B", "List.A", "Dict.A", "Full.X",
-	"AgeToString", "AgeWithCtx", "ParseAge", "NewOut", "NewOutFrom", "Whole", "Generic", "InnerToInnerOut", "WithConv",
+	"NoArg", "NoArgString", "AgeToString", "AgeWithCtx", "ParseAge", "NewOut", "NewOutFrom", "Whole", "Generic", "InnerToInnerOut", "WithConv",
 	"example.com/base/ext:IntToString", "example.com/base/ext:StringToInt", "example.com/base/ext:NewWrap", "../ext:IntToString", "./:Whole",
 	"example.com/base/ext:.*", ".*", "Age.*", "ColorRed", "ColorGreen", "ShadeRed", "ShadeDark", "@error", "@panic", "@ignore",
 	"yes", "no", "regex", "Color(\\w+) Shade$1", "struct", "function", "assign-variable", "source", "target", "ctx", "context",
@@ -189,34 +189,86 @@ var keyArity = map[string][]int{
 	"output:format": {1}, "enum:exclude": {1}, "enum:unknown": {1}, "wrapErrorsUsing": {1}, "arg:context:regex": {1},
 }
 
-// genStructuredLine keeps the documented arity of the key and makes the values hostile.
-func genStructuredLine(rt *rapid.T) string {
-	key := rapid.SampledFrom(settingKeys).Draw(rt, "skey")
-	ar, ok := keyArity[key]
-	n := 0
-	if ok {
-		n = rapid.SampledFrom(ar).Draw(rt, "arity")
-	} else {
-		n = rapid.SampledFrom([]int{0, 0, 1, 1, 2}).Draw(rt, "bool-arity")
+// weightedKeys favours the settings with the richest value grammar.
+var weightedKeys = func() []string {
+	out := append([]string{}, settingKeys...)
+	for i := 0; i < 6; i++ {
+		out = append(out, "map", "map", "ignore", "autoMap", "default", "extend", "enum:map", "update", "context")
 	}
-	parts := []string{key}
-	for i := 0; i < n; i++ {
-		switch rapid.IntRange(0, 9).Draw(rt, "stok") {
-		case 0, 1, 2, 3:
-			parts = append(parts, rapid.SampledFrom(vocab).Draw(rt, "svocab"))
-		case 4, 5, 6, 7:
-			parts = append(parts, rapid.SampledFrom(hostile).Draw(rt, "shostile"))
+	return out
+}()
+
+var (
+	vocabFields = []string{"ID", "Name", "Nested", "Ptr", "List", "Dict", "Color", "Age", "Extra", "secret", "Next", "A", "B", "Full"}
+	vocabPaths  = []string{"Nested.A", "Ptr.A", "Next.Next.ID", "Next.Nested.B", "List.A", "Dict.A", "Full.X", "Nested", "Ptr", "Next", "."}
+	vocabFuncs  = []string{"NoArg", "NoArgString", "AgeToString", "AgeWithCtx", "ParseAge", "NewOut", "NewOutFrom", "Whole", "Generic", "InnerToInnerOut", "WithConv",
+		"example.com/base/ext:IntToString", "example.com/base/ext:StringToInt", "example.com/base/ext:NewWrap", "../ext:IntToString", "./:Whole", "example.com/base/ext:.*", ".*", "Age.*"}
+	vocabEnum = []string{"ColorRed", "ColorGreen", "ColorBlue", "ShadeRed", "ShadeGreen", "ShadeBlue", "ShadeDark", "@error", "@panic", "@ignore"}
+)
+
+func tokenFrom(rt *rapid.T, pool []string) string {
+	switch rapid.IntRange(0, 9).Draw(rt, "stok") {
+	case 0, 1, 2, 3, 4, 5:
+		return rapid.SampledFrom(pool).Draw(rt, "pool")
+	case 6:
+		return rapid.SampledFrom(vocab).Draw(rt, "svocab")
+	case 7, 8:
+		return rapid.SampledFrom(hostile).Draw(rt, "shostile")
+	default:
+		v := rapid.SampledFrom(pool).Draw(rt, "pool-mut")
+		h := rapid.SampledFrom(hostile).Draw(rt, "smut-ins")
+		pos := rapid.SampledFrom([]int{0, len(v)}).Draw(rt, "smut-pos")
+		return v[:pos] + h + v[pos:]
+	}
+}
+
+// genStructuredLine keeps the documented shape of the key and draws the values from the
+// matching vocabulary of the base program, mixed with hostile tokens.
+func genStructuredLine(rt *rapid.T) string {
+	key := rapid.SampledFrom(weightedKeys).Draw(rt, "skey")
+	var parts []string
+	switch key {
+	case "map":
+		switch rapid.IntRange(0, 2).Draw(rt, "map-form") {
+		case 0:
+			parts = []string{tokenFrom(rt, append(vocabFields, vocabPaths...)), tokenFrom(rt, vocabFields)}
+		case 1:
+			parts = []string{tokenFrom(rt, append(vocabFields, vocabPaths...)), tokenFrom(rt, vocabFields), "|", tokenFrom(rt, vocabFuncs)}
 		default:
-			v := rapid.SampledFrom(vocab).Draw(rt, "svocab-mut")
-			h := rapid.SampledFrom(hostile).Draw(rt, "smut-ins")
-			pos := rapid.SampledFrom([]int{0, len(v)}).Draw(rt, "smut-pos")
-			parts = append(parts, v[:pos]+h+v[pos:])
+			parts = []string{tokenFrom(rt, vocabFields), "|", tokenFrom(rt, vocabFuncs)}
+		}
+	case "ignore":
+		n := rapid.IntRange(1, 3).Draw(rt, "nignore")
+		for i := 0; i < n; i++ {
+			parts = append(parts, tokenFrom(rt, vocabFields))
+		}
+	case "autoMap":
+		parts = []string{tokenFrom(rt, vocabPaths)}
+	case "extend", "default":
+		parts = []string{tokenFrom(rt, vocabFuncs)}
+	case "enum:map":
+		parts = []string{tokenFrom(rt, vocabEnum), tokenFrom(rt, vocabEnum)}
+	case "enum:unknown":
+		parts = []string{tokenFrom(rt, vocabEnum)}
+	case "update", "context":
+		parts = []string{tokenFrom(rt, []string{"source", "target", "ctx", "context"})}
+	default:
+		ar, ok := keyArity[key]
+		n := 0
+		if ok {
+			n = rapid.SampledFrom(ar).Draw(rt, "arity")
+		} else {
+			n = rapid.SampledFrom([]int{0, 0, 1, 1, 2}).Draw(rt, "bool-arity")
+		}
+		for i := 0; i < n; i++ {
+			parts = append(parts, tokenFrom(rt, vocab))
 		}
 	}
-	if key == "map" && n >= 2 && rapid.Bool().Draw(rt, "map-pipe") {
-		parts = append(parts, "|", rapid.SampledFrom(vocab).Draw(rt, "map-func"))
+	line := key
+	if len(parts) > 0 {
+		line += " " + strings.Join(parts, " ")
 	}
-	return strings.NewReplacer("\n", " ", "\r", " ").Replace(strings.Join(parts, " "))
+	return strings.NewReplacer("\n", " ", "\r", " ").Replace(line)
 }
 
 func genLine(rt *rapid.T) string {
